@@ -100,7 +100,7 @@ var curSrc string
 func setReattachOK(prog *ir.Program) {
 	reattachOK = true
 	for f := range prog.Features {
-		for _, w := range []string{"corout", "wrap", "resume", "yield", "generation"} {
+		for _, w := range []string{"corout", "wrap", "resume", "yield", "generation", "thread", "sibling"} {
 			if strings.Contains(f, w) {
 				reattachOK = false
 			}
@@ -211,7 +211,50 @@ emit("post3", c(1), c(5))
 
 var postProto *lua.FunctionProto
 
+// manyUpvalues: a closure that mentions 250-262 variables of two enclosing functions. Either the compiler refuses the
+// text (only allowed above 255, the most a prototype can record) or every closure sees its own variables.
+func manyUpvalues(t *core.Tape, st *core.Stats) *core.Violation {
+	const na = 130
+	k := 120 + t.Choose(13)
+	var sb strings.Builder
+	names := func(p string, n int) string {
+		parts := make([]string, n)
+		for i := range parts {
+			parts[i] = fmt.Sprintf("%s%d", p, i+1)
+		}
+		return strings.Join(parts, ", ")
+	}
+	vals := func(base, n int) string {
+		parts := make([]string, n)
+		for i := range parts {
+			parts[i] = fmt.Sprint(base + i + 1)
+		}
+		return strings.Join(parts, ", ")
+	}
+	sum := strings.Replace(names("a", na), ", ", " + ", -1) + " + " + strings.Replace(names("b", k), ", ", " + ", -1)
+	fmt.Fprintf(&sb, "local emit = emit\nlocal %s = %s\nlocal function f()\n  local %s = %s\n  local h = function() b1 = b1 + 1 return b1 end\n  local g = function() return %s end\n  return h, g\nend\nlocal h, g = f()\nemit(\"up\", h(), g(), h())\n",
+		names("a", na), vals(0, na), names("b", 130), vals(1000, 130), sum)
+	st.Probe("closure_with_250_to_262_upvalues")
+	proto, err := hostapi.Compile(sb.String())
+	if err != nil {
+		if na+k > 255 && strings.Contains(err.Error(), "upvalue") {
+			return nil
+		}
+		return core.Violationf("rejects-valid", "a closure over %d variables of enclosing functions does not compile: %v", na+k, err)
+	}
+	h := hostapi.NewHost(hostapi.Options{LuaOptions: hostapi.SmallOptions(), MaxSteps: 100000})
+	out := h.RunProto(proto)
+	want := fmt.Sprintf("E:'up',1002,%d,1003", na*(na+1)/2+1000*k+k*(k+1)/2+1)
+	if out.Escaped != "" || out.TopError != "" || len(h.Trace) != 1 || h.Trace[0] != want {
+		return core.Violationf("trace-mismatch", "a closure over %d variables of two enclosing functions (130 of the chunk, %d of the function): got trace %v error %q escaped %q, want %s", na+k, k, h.Trace, out.TopError, out.Escaped, want)
+	}
+	return nil
+}
+
 func (e *Engine) Run(t *core.Tape, cfg *core.Config, st *core.Stats) *core.Violation {
+	if e.profile == "closure" && len(cfg.Aux) == 0 && t.Choose(40) == 0 {
+		return manyUpvalues(t, st)
+	}
 	prof := ir.ProfileFor(e.profile)
 	prof.Disabled = cfg.Disabled
 	prog := ir.Generate(t, prof)
